@@ -461,6 +461,25 @@ func runC18Stall(c *kernel.Ctx, b *world.Broker, kP, kNoP string) {
 		world.Settle()
 		healthy.Recv()
 	}
+	// while the backlog stands, one connection goes back and forth between two sub-channels: whatever the
+	// presence service does to work a backlog off, the watcher is told in the order the connection went
+	pattern := []struct {
+		sub bool
+		ch  string
+	}{{true, "a/x/"}, {true, "a/y/"}, {false, "a/x/"}, {false, "a/y/"}, {true, "a/x/"}}
+	var wantOrder []string
+	for _, op := range pattern {
+		if op.sub {
+			subs[0].Send(subs[0].Subscribe(kNoP + "/" + op.ch))
+			wantOrder = append(wantOrder, "subscribe "+op.ch+" s0")
+		} else {
+			subs[0].Send(subs[0].Unsubscribe(kNoP + "/" + op.ch))
+			wantOrder = append(wantOrder, "unsubscribe "+op.ch+" s0")
+		}
+		world.Settle()
+		healthy.Recv()
+	}
+	var gotOrder []string
 	// the watcher reads again, until nothing more arrives
 	got := map[string]int{}
 	hgot := map[string]int{}
@@ -472,6 +491,9 @@ func runC18Stall(c *kernel.Ctx, b *world.Broker, kP, kNoP string) {
 		evs, _ := presenceEvents(pk)
 		for _, e := range evs {
 			got[e]++
+			if strings.HasSuffix(e, " s0") && (strings.Contains(e, " a/x/ ") || strings.Contains(e, " a/y/ ")) {
+				gotOrder = append(gotOrder, e)
+			}
 		}
 		world.Settle()
 		hp, _ := healthy.Recv()
@@ -503,6 +525,13 @@ func runC18Stall(c *kernel.Ctx, b *world.Broker, kP, kNoP string) {
 	if dup > 0 {
 		c.Check("notify-extra", "slow-consumer", "%d notifications arrived twice at the slow watcher", dup)
 	}
+	if strings.Join(gotOrder, "; ") != strings.Join(wantOrder, "; ") {
+		rule := "notify-order"
+		if strings.Join(sortedCopy(gotOrder), ";") != strings.Join(sortedCopy(wantOrder), ";") {
+			rule = "notify-missing"
+		}
+		c.Check(rule, "slow-consumer back-and-forth", "connection s0 went [%s] while the watcher's backlog stood; the watcher was told [%s]", strings.Join(wantOrder, "; "), strings.Join(gotOrder, "; "))
+	}
 	// every subscriber must have been acknowledged in the end
 	for i, s := range subs {
 		pk, _ := s.Recv()
@@ -515,6 +544,9 @@ func runC18Stall(c *kernel.Ctx, b *world.Broker, kP, kNoP string) {
 		want := n / nsub
 		if i < n%nsub {
 			want++
+		}
+		if i == 0 {
+			want += 3 // the three subscriptions of the back-and-forth pattern
 		}
 		if acks != want {
 			c.Check("notify-missing", "slow-consumer suback", "subscriber s%d got %d of %d SUBACKs after the slow watcher resumed", i, acks, want)
